@@ -1809,7 +1809,7 @@ class VarDataValue(BaseConverter):
         writeBigArray(values[:n1])
         writeSmallArray(values[n1:regionCount])
         if n2 > regionCount:  # Padding
-            writer.writeSmallArray([0] * (n2 - regionCount))
+            writeSmallArray([0] * (n2 - regionCount))
 
     def xmlWrite(self, xmlWriter, font, value, name, attrs):
         xmlWriter.simpletag(name, attrs + [("value", value)])
